@@ -393,7 +393,7 @@ func (d *templateKV) Delete(id string) error {
 		// Delete all associations
 		ids, err := tx.List(templateTaskPrefix + id + "/")
 		if err != nil {
-			return nil
+			return err
 		}
 
 		for _, id := range ids {
